@@ -282,13 +282,13 @@ theorem insertDesc_sorted {f : Style → Nat} {s : Style} : ∀ {l : List Style}
       refine List.pairwise_cons.mpr ⟨?_, h⟩
       intro b hb
       rcases List.mem_cons.mp hb with rfl | hb
-      · exact Nat.le_of_lt hlt
-      · exact Nat.le_trans (hx.1 b hb) (Nat.le_of_lt hlt)
+      · exact hlt
+      · exact Nat.le_trans (hx.1 b hb) hlt
     · rename_i hlt
       refine List.pairwise_cons.mpr ⟨?_, insertDesc_sorted hx.2⟩
       intro b hb
       rcases mem_insertDesc.mp hb with rfl | hb
-      · exact Nat.le_of_not_gt hlt
+      · exact Nat.le_of_lt (Nat.lt_of_not_le hlt)
       · exact hx.1 b hb
 
 theorem sortDesc_sorted {f : Style → Nat} : ∀ (l : List Style), (sortDesc f l).Pairwise (fun a b => f b ≤ f a)
